@@ -694,6 +694,9 @@ pub struct Knobs {
     /// probability (per 1000) that an atom is replaced by a grammatical but odd expression
     /// (tuple, `_`, anonymous component, nested array, unknown call, port access): C01 only
     pub odd_permille: u32,
+    /// identifiers that stress name handling: `$` in names, one identifier used for a
+    /// variable in one scope and a signal in another (C14, C01 only)
+    pub odd_names: bool,
     /// literals are drawn modulo this prime family: 0 = bn254
     pub prime: usize,
 }
@@ -731,6 +734,7 @@ impl Knobs {
             dup_params: b(1, 6),
             array_init_permille: 900,
             odd_permille: 0,
+            odd_names: false,
             max_stmts: 2 + rng.usize(14),
             max_depth: rng.usize(4),
             expr_depth: 1 + rng.usize(3),
@@ -840,7 +844,17 @@ impl<'a> Ctx<'a> {
         // small, collision-prone pool; shadowing an outer declaration is allowed
         // only when the knob says so.
         for _ in 0..8 {
-            let cand = self.rng.pick(&VAR_POOL).to_string();
+            let existing: Vec<String> = self.scopes.iter().flat_map(|sc| sc.iter().map(|v| v.name.clone())).filter(|n| !n.contains('$') && !n.ends_with("_0")).collect();
+            let cand = if self.k.odd_names && !existing.is_empty() && self.rng.chance(1, 5) {
+                // a name that looks like the renamed form of an existing (possibly shadowed) one
+                let w = existing[self.rng.usize(existing.len())].clone();
+                let sep = *self.rng.pick(&["$", "_", "$"]);
+                format!("{w}{sep}{}", self.rng.usize(2))
+            } else if self.k.odd_names && self.rng.chance(1, 4) {
+                self.rng.pick(&["x$0", "acc$0", "s", "t", "x$1", "aux"]).to_string()
+            } else {
+                self.rng.pick(&VAR_POOL).to_string()
+            };
             if self.sigs.iter().any(|s| s.name == cand) || self.comps.iter().any(|c| c.name == cand) {
                 continue;
             }
@@ -859,7 +873,11 @@ impl<'a> Ctx<'a> {
 
     fn new_sig_name(&mut self) -> String {
         for _ in 0..8 {
-            let cand = self.rng.pick(&SIG_POOL).to_string();
+            let cand = if self.k.odd_names && self.rng.chance(1, 4) {
+                self.rng.pick(&["x", "v", "tmp", "acc"]).to_string()
+            } else {
+                self.rng.pick(&SIG_POOL).to_string()
+            };
             if !self.declared_anywhere(&cand) {
                 return cand;
             }
